@@ -137,7 +137,7 @@ pub fn run_parse(c: &ParseCase) -> Verdict {
         (None, Err(())) => {
             labels.push(format!(
                 "rejected:{}",
-                if len != width { "length" } else if !c.s.is_ascii() { "non-ascii" } else if c.s.bytes().all(|b| b.is_ascii_hexdigit()) { "too-large" } else { "bad-char" }
+                if !c.s.is_ascii() && c.s.len() == width { "non-ascii-with-the-right-byte-length" } else if len != width { "length" } else if !c.s.is_ascii() { "non-ascii" } else if c.s.bytes().all(|b| b.is_ascii_hexdigit()) { "too-large" } else { "bad-char" }
             ));
         }
     }
